@@ -43,6 +43,8 @@ BASE = {
 
 # The MMST generator's `max_step` sizes the route buffer (`connected_nodes`); the constructor accepts a generator
 # whose max_step differs from time_limit, and the documented end of the episode is still `time_limit`.
+MID_T = {"RobotWarehouse": 30, "Snake": 25, "Tetris": 25, "LevelBasedForaging": 25, "Connector": 15, "PacMan": 30,
+         "Cleaner": 20, "Maze": 20, "Sokoban": 25, "SlidingTilePuzzle": 20, "MMST": 15, "RubiksCube": 9}
 EXTRA_TIME = {"MMST": [(7, {"max_step": 4}), (3, {"max_step": 30})]}
 
 
@@ -98,7 +100,14 @@ def twin(ctx, env, entry, T, T_arg, key_words, plan=None, actions=None, extra=No
             a = long_b.to_action(actions[i])
         else:
             mode, r = plan["steps"][i % len(plan["steps"])]
-            a = long_b.pick_action(sl, tl, mode, r + 7919 * (i // len(plan["steps"])))
+            r = r + 7919 * (i // len(plan["steps"]))
+            a = None
+            if mode == "solve":
+                if id(long_b) not in _SOLVERS:
+                    _SOLVERS[id(long_b)] = (long_b, episodes.solve_fn_for(long_b))
+                a = episodes.solved_action(long_b, _SOLVERS[id(long_b)][1], episodes.host(sl), r)
+            if a is None:
+                a = long_b.pick_action(sl, tl, mode, r)
         acts.append(np.asarray(a))
         sl, tl = long_b.step(sl, a)
         types_l.append(int(tl.step_type))
@@ -117,6 +126,7 @@ def twin(ctx, env, entry, T, T_arg, key_words, plan=None, actions=None, extra=No
 
 
 _REASON_MODELS: dict = {}
+_SOLVERS: dict = {}
 
 
 def _reason_model(b):
@@ -174,6 +184,12 @@ def work_items(tier, flt):
             for T in Ts:
                 items.append({"kind": "time", "env": env, "entry": entry, "T": T, "T_arg": T,
                               "n": max(2, int((10 if tier == "quick" else 60) * scale)), "cost": 2})
+            if env in MID_T and entry == BASE[env][0]:
+                # purposeful play (the model's constructive policy) up to a mid-sized limit: progress events -
+                # a delivery, a fruit, a cleared line, a loaded food, a connected agent - happen before step T
+                items.append({"kind": "time", "env": env, "entry": entry, "T": MID_T[env], "T_arg": MID_T[env],
+                              "styles": ["solve", "solveish", "solve", "survive"],
+                              "n": max(2, int((6 if tier == "quick" else 40) * scale)), "cost": 3})
             for T, extra in EXTRA_TIME.get(env, []) if entry == BASE[env][0] else []:
                 items.append({"kind": "time", "env": env, "entry": entry, "T": T, "T_arg": T, "extra": extra,
                               "n": max(2, int((10 if tier == "quick" else 60) * scale)), "cost": 2})
@@ -227,8 +243,10 @@ def run_item(item, seed, tier):
                         ctx.fail(o, env, s, m + f" [entry={entry} key={list(key)}]", case, size=len(acts))
 
             hyp.drive({"key": episodes.keys(),
-                       "plan": episodes.plans(max_len=24, styles=("survive", "legal", "survive", "chaos", "legalish", "solveish"),
-                                              min_len=4)},
+                       "plan": episodes.plans(max_len=24 if not item.get("styles") else max(24, T + 6),
+                                              styles=tuple(item.get("styles") or
+                                                           ("survive", "legal", "survive", "chaos", "legalish", "solveish")),
+                                              min_len=4 if not item.get("styles") else T + 6)},
                       one, seed, item["n"])
         else:
             b = envs.bundle(env, entry)
